@@ -7,7 +7,8 @@
       <<"eps">>  <<"empty">>  <<"bol">>  <<"eol">>
       <<"seq",r1,r2>>  <<"or",r1,r2>>  <<"star",r>>  <<"plus",r>>  <<"opt",r>>
       <<"rep",m,n,r>>   (n = -1: no upper bound)
-      <<"sub",r>>  (numbered submatch)   <<"nocase",r>>  (case-insensitive scope)
+      <<"sub",r>>  (numbered submatch)   <<"nocase",r>>  (case-insensitive scope)   <<"ascii",r>>  (w/ascii scope)
+      named classes and the char-set algebra: see CsTags below
 
    Zero-width assertions make membership depend on where in the subject the text
    lies, so the basic judgement is  "subject s, between positions i and j (0..Len(s)),
@@ -30,75 +31,143 @@ IsLower(c) == (c - 32) \in UpperSimple
 Variants(c) == IF IsUpper(c) THEN {c, c + 32} ELSE IF IsLower(c) THEN {c, c - 32} ELSE {c}
 
 AtomTags == {"lit", "set", "nset", "range", "any"}
-CharIn0(a, c) == CASE a[1] = "lit"   -> c = a[2]
-                   [] a[1] = "set"   -> c \in a[2]
-                   [] a[1] = "nset"  -> c \notin a[2]
-                   [] a[1] = "range" -> a[2] <= c /\ c <= a[3]
-                   [] a[1] = "any"   -> TRUE
-\* a core atom is an AtomTags tuple or <<"ci", atom>> (atom in a case-insensitive scope)
-IsAtom(r) == r[1] \in AtomTags \/ r[1] = "ci"
-CharIn(a, c) == IF a[1] = "ci" THEN \E v \in Variants(c) : CharIn0(a[2], v) ELSE CharIn0(a, c)
+
+(* ---- named character classes (SRFI 115) and the char-set algebra around them ----
+   Membership is stated for the characters of KnownChars only: all of ASCII (by Unicode general category) and a
+   few representatives of the non-ASCII categories; subjects of SREs that mention a named class stay inside it.
+     <<"cls", name>>  <<"nonl">>  <<"cor",a,b>> (or)  <<"cand",a,b>> (and)  <<"cdiff",a,b>> (-)  <<"ccompl",a>> (~)
+     <<"cnocase",a>> / <<"cascii",a>> : (w/nocase cs) / (w/ascii cs) as operands of the algebra                      *)
+ClassNames == {"alphabetic", "numeric", "alphanumeric", "whitespace", "punctuation", "symbol", "lower-case", "upper-case",
+               "hex-digit", "ascii"}
+NonAsciiKnown == {160, 178, 191, 201, 233, 923, 955, 1044, 1076, 1635, 8195, 8232, 26085, 65296, 128512}
+KnownChars == (0..127) \cup NonAsciiKnown
+LowerL == (97..122) \cup {233, 955, 1076}                 \* Ll
+UpperL == (65..90) \cup {201, 923, 1044}                  \* Lu
+OtherL == {26085}                                         \* Lo
+DigitN == (48..57) \cup {1635, 65296}                     \* Nd (178 = superscript two is No: not numeric)
+PunctP == {33, 34, 35, 37, 38, 39, 40, 41, 42, 44, 45, 46, 47, 58, 59, 63, 64, 91, 92, 93, 95, 123, 125, 191}   \* Pc Pd Ps Pe Po
+SymbolS == {36, 43, 60, 61, 62, 94, 96, 124, 126, 128512} \* Sc Sk Sm So
+WhiteZ == (9..13) \cup {32, 160, 8195, 8232}              \* White_Space
+HexD == (48..57) \cup (65..70) \cup (97..102)
+ClassHas(name, c) ==
+   CASE name = "alphabetic"   -> c \in LowerL \cup UpperL \cup OtherL
+     [] name = "numeric"      -> c \in DigitN
+     [] name = "alphanumeric" -> c \in LowerL \cup UpperL \cup OtherL \cup DigitN
+     [] name = "whitespace"   -> c \in WhiteZ
+     [] name = "punctuation"  -> c \in PunctP
+     [] name = "symbol"       -> c \in SymbolS
+     [] name = "lower-case"   -> c \in LowerL
+     [] name = "upper-case"   -> c \in UpperL
+     [] name = "hex-digit"    -> c \in HexD
+     [] name = "ascii"        -> c < 128
+CsTags == AtomTags \cup {"cls", "nonl", "cor", "cand", "cdiff", "ccompl", "cnocase", "cascii"}
+IsCs(r) == r[1] \in CsTags
+\* membership of c in a char-set expression; asc = inside w/ascii (named classes keep their ASCII members only);
+\* case-insensitively a set matches c when some member of the set equals c up to case (the set is folded as a whole)
+RECURSIVE Cs0(_, _, _), CsIn(_, _, _, _)
+CsIn(e, ci, asc, c) == IF ci THEN \E v \in Variants(c) : Cs0(e, asc, v) ELSE Cs0(e, asc, c)
+Cs0(e, asc, c) ==
+   CASE e[1] = "lit"     -> c = e[2]
+     [] e[1] = "set"     -> c \in e[2]
+     [] e[1] = "nset"    -> c \notin e[2]
+     [] e[1] = "range"   -> e[2] <= c /\ c <= e[3]
+     [] e[1] = "any"     -> TRUE
+     [] e[1] = "nonl"    -> c # NL
+     [] e[1] = "cls"     -> ClassHas(e[2], c) /\ (asc => c < 128)
+     [] e[1] = "cor"     -> Cs0(e[2], asc, c) \/ Cs0(e[3], asc, c)
+     [] e[1] = "cand"    -> Cs0(e[2], asc, c) /\ Cs0(e[3], asc, c)
+     [] e[1] = "cdiff"   -> Cs0(e[2], asc, c) /\ ~Cs0(e[3], asc, c)
+     [] e[1] = "ccompl"  -> ~Cs0(e[2], asc, c)
+     [] e[1] = "cnocase" -> CsIn(e[2], TRUE, asc, c)
+     [] e[1] = "cascii"  -> Cs0(e[2], TRUE, c)
+\* a core atom is a char-set expression, or <<"cs", ci, asc, expr>> (the expression inside w/nocase / w/ascii scopes)
+IsAtom(r) == r[1] \in CsTags \/ r[1] = "cs"
+CharIn(a, c) == IF a[1] = "cs" THEN CsIn(a[4], a[2], a[3], c) ELSE Cs0(a, FALSE, c)
+\* does the SRE mention a named class (then subjects must stay inside KnownChars)
+RECURSIVE UsesNamed(_)
+UsesNamed(r) == CASE r[1] = "cls" -> TRUE
+                  [] r[1] \in {"seq", "or", "cor", "cand", "cdiff"} -> UsesNamed(r[2]) \/ UsesNamed(r[3])
+                  [] r[1] \in {"star", "plus", "opt", "sub", "nocase", "ascii", "ccompl", "cnocase", "cascii"} -> UsesNamed(r[2])
+                  [] r[1] = "rep" -> UsesNamed(r[4])
+                  [] OTHER -> FALSE
 
 ----------------------------------------------------------------------------
-(* well-formedness = the domain in which SRFI 115 fixes the outcome *)
-RECURSIVE WF0(_, _)
-WF0(r, ci) ==
+(* well-formedness = the domain in which SRFI 115 fixes the outcome.  Inside w/nocase: no complement, intersection
+   or difference (whether operands or the result are folded is not fixed); inside w/ascii: no complement / any / nonl
+   (complement relative to what is not fixed).                                                                     *)
+RECURSIVE WF0(_, _, _)
+WF0(r, ci, asc) ==
    CASE r[1] = "lit"   -> r[2] \in Nat
      [] r[1] = "set"   -> r[2] # {}
-     [] r[1] = "nset"  -> ~ci /\ r[2] # {}                  \* complement inside w/nocase: order of folding and complement is not fixed
+     [] r[1] = "nset"  -> ~ci /\ ~asc /\ r[2] # {}
      [] r[1] = "range" -> r[2] <= r[3]
-     [] r[1] \in {"any", "eps", "empty", "bol", "eol"} -> TRUE
-     [] r[1] \in {"seq", "or"} -> WF0(r[2], ci) /\ WF0(r[3], ci)
-     [] r[1] \in {"star", "plus", "opt", "sub"} -> WF0(r[2], ci)
-     [] r[1] = "nocase" -> WF0(r[2], TRUE)
-     [] r[1] = "rep"   -> r[2] >= 0 /\ (r[3] = -1 \/ r[2] <= r[3]) /\ WF0(r[4], ci)
+     [] r[1] \in {"any", "nonl"} -> ~asc
+     [] r[1] \in {"eps", "empty", "bol", "eol"} -> TRUE
+     [] r[1] = "cls"   -> r[2] \in ClassNames
+     [] r[1] = "cor"   -> IsCs(r[2]) /\ IsCs(r[3]) /\ WF0(r[2], ci, asc) /\ WF0(r[3], ci, asc)
+     [] r[1] \in {"cand", "cdiff"} -> ~ci /\ IsCs(r[2]) /\ IsCs(r[3]) /\ WF0(r[2], ci, asc) /\ WF0(r[3], ci, asc)
+     [] r[1] = "ccompl" -> ~ci /\ ~asc /\ IsCs(r[2]) /\ WF0(r[2], ci, asc)
+     [] r[1] = "cnocase" -> IsCs(r[2]) /\ WF0(r[2], TRUE, asc)
+     [] r[1] = "cascii" -> IsCs(r[2]) /\ WF0(r[2], ci, TRUE)
+     [] r[1] \in {"seq", "or"} -> WF0(r[2], ci, asc) /\ WF0(r[3], ci, asc)
+     [] r[1] \in {"star", "plus", "opt", "sub"} -> WF0(r[2], ci, asc)
+     [] r[1] = "nocase" -> WF0(r[2], TRUE, asc)
+     [] r[1] = "ascii" -> WF0(r[2], ci, TRUE)
+     [] r[1] = "rep"   -> r[2] >= 0 /\ (r[3] = -1 \/ r[2] <= r[3]) /\ WF0(r[4], ci, asc)
      [] OTHER -> FALSE
-WF(r) == WF0(r, FALSE)
+WF(r) == WF0(r, FALSE, FALSE)
 
 (* generator restriction, not part of the semantics: chibi folds case by enumerating the class, so a class with
-   very many members inside w/nocase (any, a complement, a wide range) takes minutes to compile; such SREs are
-   not generated (their results are not in question, the run time is)                                        *)
-RECURSIVE Tractable0(_, _)
-Tractable0(r, ci) ==
-   CASE r[1] \in {"any", "nset"} -> ~ci
+   very many members inside w/nocase (any, a complement, a wide range, a large named class inside an or) takes
+   seconds to minutes to compile; such SREs are not generated (their results are not in question, the run time is) *)
+BigNamed == {"alphabetic", "alphanumeric", "symbol"}
+RECURSIVE Tractable0(_, _, _)
+Tractable0(r, ci, inor) ==
+   CASE r[1] \in {"any", "nonl", "nset", "ccompl"} -> ~ci
      [] r[1] = "range" -> ~ci \/ r[3] - r[2] <= 1000
-     [] r[1] \in {"seq", "or"} -> Tractable0(r[2], ci) /\ Tractable0(r[3], ci)
-     [] r[1] \in {"star", "plus", "opt", "sub"} -> Tractable0(r[2], ci)
-     [] r[1] = "nocase" -> Tractable0(r[2], TRUE)
-     [] r[1] = "rep" -> Tractable0(r[4], ci)
+     [] r[1] = "cls" -> ~(ci /\ inor /\ r[2] \in BigNamed)
+     [] r[1] \in {"or", "cor"} -> Tractable0(r[2], ci, TRUE) /\ Tractable0(r[3], ci, TRUE)
+     [] r[1] \in {"seq", "cand", "cdiff"} -> Tractable0(r[2], ci, inor) /\ Tractable0(r[3], ci, inor)
+     [] r[1] \in {"star", "plus", "opt", "sub", "ascii", "cascii"} -> Tractable0(r[2], ci, inor)
+     [] r[1] \in {"nocase", "cnocase"} -> Tractable0(r[2], TRUE, inor)
+     [] r[1] = "rep" -> Tractable0(r[4], ci, inor)
      [] OTHER -> TRUE
-Tractable(r) == Tractable0(r, FALSE)
+Tractable(r) == Tractable0(r, FALSE, FALSE)
 
 RECURSIVE Depth(_)
-Depth(r) == CASE r[1] \in {"seq", "or"} -> 1 + (IF Depth(r[2]) >= Depth(r[3]) THEN Depth(r[2]) ELSE Depth(r[3]))
-              [] r[1] \in {"star", "plus", "opt", "sub", "nocase"} -> 1 + Depth(r[2])
+Depth(r) == CASE r[1] \in {"seq", "or", "cor", "cand", "cdiff"} -> 1 + (IF Depth(r[2]) >= Depth(r[3]) THEN Depth(r[2]) ELSE Depth(r[3]))
+              [] r[1] \in {"star", "plus", "opt", "sub", "nocase", "ascii", "ccompl", "cnocase", "cascii"} -> 1 + Depth(r[2])
               [] r[1] = "rep" -> 1 + Depth(r[4])
               [] OTHER -> 0
 
-(* Norm: erase submatch markers and push case-insensitivity down to the atoms: the core language *)
+(* Norm: erase submatch markers and push the w/nocase / w/ascii scopes down to the char-set expressions: the core
+   language.  fl = <<case-insensitive, ascii>>                                                                  *)
+NoFl == <<FALSE, FALSE>>
 RECURSIVE Norm(_, _)
-Norm(r, ci) ==
-   CASE r[1] \in AtomTags -> IF ci THEN <<"ci", r>> ELSE r
-     [] r[1] \in {"seq", "or"} -> <<r[1], Norm(r[2], ci), Norm(r[3], ci)>>
-     [] r[1] \in {"star", "plus", "opt"} -> <<r[1], Norm(r[2], ci)>>
-     [] r[1] = "rep" -> <<"rep", r[2], r[3], Norm(r[4], ci)>>
-     [] r[1] = "sub" -> Norm(r[2], ci)
-     [] r[1] = "nocase" -> Norm(r[2], TRUE)
+Norm(r, fl) ==
+   CASE r[1] \in CsTags -> IF fl = NoFl THEN r ELSE <<"cs", fl[1], fl[2], r>>
+     [] r[1] \in {"seq", "or"} -> <<r[1], Norm(r[2], fl), Norm(r[3], fl)>>
+     [] r[1] \in {"star", "plus", "opt"} -> <<r[1], Norm(r[2], fl)>>
+     [] r[1] = "rep" -> <<"rep", r[2], r[3], Norm(r[4], fl)>>
+     [] r[1] = "sub" -> Norm(r[2], fl)
+     [] r[1] = "nocase" -> Norm(r[2], <<TRUE, fl[2]>>)
+     [] r[1] = "ascii" -> Norm(r[2], <<fl[1], TRUE>>)
      [] OTHER -> r
 
 (* the numbered submatches, in order of their opening parenthesis, each as a core expression *)
 RECURSIVE Groups(_, _)
-Groups(r, ci) ==
-   CASE r[1] = "sub" -> <<Norm(r[2], ci)>> \o Groups(r[2], ci)
-     [] r[1] \in {"seq", "or"} -> Groups(r[2], ci) \o Groups(r[3], ci)
-     [] r[1] \in {"star", "plus", "opt"} -> Groups(r[2], ci)
-     [] r[1] = "rep" -> Groups(r[4], ci)
-     [] r[1] = "nocase" -> Groups(r[2], TRUE)
+Groups(r, fl) ==
+   CASE r[1] = "sub" -> <<Norm(r[2], fl)>> \o Groups(r[2], fl)
+     [] r[1] \in {"seq", "or"} -> Groups(r[2], fl) \o Groups(r[3], fl)
+     [] r[1] \in {"star", "plus", "opt"} -> Groups(r[2], fl)
+     [] r[1] = "rep" -> Groups(r[4], fl)
+     [] r[1] = "nocase" -> Groups(r[2], <<TRUE, fl[2]>>)
+     [] r[1] = "ascii" -> Groups(r[2], <<fl[1], TRUE>>)
      [] OTHER -> <<>>
 RECURSIVE NumSubs(_)
 NumSubs(r) == CASE r[1] = "sub" -> 1 + NumSubs(r[2])
                 [] r[1] \in {"seq", "or"} -> NumSubs(r[2]) + NumSubs(r[3])
-                [] r[1] \in {"star", "plus", "opt", "nocase"} -> NumSubs(r[2])
+                [] r[1] \in {"star", "plus", "opt", "nocase", "ascii"} -> NumSubs(r[2])
                 [] r[1] = "rep" -> NumSubs(r[4])
                 [] OTHER -> 0
 
@@ -173,7 +242,7 @@ MatchD(r, s, i, j) == Null(Residual(r, s, i, j), Bol(s, j), Eol(s, j))
 
 ----------------------------------------------------------------------------
 (* what the property speaks about; r is a source SRE (with sub / nocase) *)
-Core(r) == Norm(r, FALSE)
+Core(r) == Norm(r, NoFl)
 Matches(r, s) == MatchD(Core(r), s, 0, Len(s))                       \* regexp-matches?
 Spans(s) == {<<i, j>> \in (0..Len(s)) \X (0..Len(s)) : i <= j}
 SearchDef(r, s) == \E sp \in Spans(s) : MatchD(Core(r), s, sp[1], sp[2]) \* regexp-search finds something: some substring matches
@@ -194,7 +263,7 @@ SearchAsMatch(r, s) == MatchD(<<"seq", AnyStar, <<"seq", Core(r), AnyStar>>>>, s
 Unmatched == <<-1, -1>>
 SpanOk(q, s, lo, hi, sp) == /\ lo <= sp[1] /\ sp[1] <= sp[2] /\ sp[2] <= hi /\ MatchD(q, s, sp[1], sp[2])
 ReportOk(r, s, spans) ==
-   LET G == Groups(r, FALSE) IN
+   LET G == Groups(r, NoFl) IN
    /\ Len(spans) = 1 + Len(G)
    /\ SpanOk(Core(r), s, 0, Len(s), spans[1])
    /\ \A g \in 1..Len(G) : spans[g + 1] = Unmatched \/ SpanOk(G[g], s, spans[1][1], spans[1][2], spans[g + 1])
